@@ -319,7 +319,12 @@ def gate(ctx):
         ctx.prove(f"{tag}-open-again-within-1s", I, z3.And(okc, I.to_bool(r), t2 >= t + R(MAX_I), z3.Not(I.to_bool(r2))),
                   vars={**vars_, "t2": t2}, replay=lambda vals, fresh=fresh: _two(vals, fresh, eps),
                   desc="the gate never stays closed longer than 1 s after an admission")
-        ctx.prove("epsilon-at-most-1us", None, z3.BoolVal(eps > 1e-6), replay=lambda v: (True, f"_T_EPSILON={eps}"))
+        def replay_eps(v):
+            import importlib
+            import flexstack.management.dcc_adaptive as mod
+            real = importlib.reload(mod).GateKeeper._T_EPSILON          # re-read from the source file
+            return real > 1e-6, f"GateKeeper._T_EPSILON = {real} s"
+        ctx.prove("epsilon-at-most-1us", None, z3.BoolVal(eps > 1e-6), replay=replay_eps)
 
         # ---- update_delta (B.2)
         I = make("int")
